@@ -224,6 +224,152 @@ pub fn numeric_literals() -> &'static [usize] {
     })
 }
 
+
+/// Pairs of DIFFERENT short strings on which a well-known non-cryptographic hash function (FNV-1/1a, djb2,
+/// sdbm, Java's 31-hash, CRC-32, Adler-32, one-at-a-time, Murmur3, the std SipHash with default keys, each also
+/// truncated to 16 bits) gives the SAME value — computed here by birthday search, not stored. A decoder that
+/// recognises "the same key / topic as before" by such a tag is correct on every other pair of inputs.
+pub fn collisions() -> &'static [(String, String)] {
+    static C: std::sync::OnceLock<Vec<(String, String)>> = std::sync::OnceLock::new();
+    C.get_or_init(|| {
+        fn fnv1a(b: &[u8]) -> u64 {
+            b.iter().fold(0x811c_9dc5u32, |h, c| (h ^ u32::from(*c)).wrapping_mul(0x0100_0193)) as u64
+        }
+        fn fnv1(b: &[u8]) -> u64 {
+            b.iter().fold(0x811c_9dc5u32, |h, c| h.wrapping_mul(0x0100_0193) ^ u32::from(*c)) as u64
+        }
+        fn fnv1a64lo(b: &[u8]) -> u64 {
+            b.iter().fold(0xcbf2_9ce4_8422_2325u64, |h, c| (h ^ u64::from(*c)).wrapping_mul(0x0000_0100_0000_01b3)) & 0xffff_ffff
+        }
+        fn fnv1a64fold(b: &[u8]) -> u64 {
+            let h = b.iter().fold(0xcbf2_9ce4_8422_2325u64, |h, c| (h ^ u64::from(*c)).wrapping_mul(0x0000_0100_0000_01b3));
+            (h >> 32) ^ (h & 0xffff_ffff)
+        }
+        fn djb2(b: &[u8]) -> u64 {
+            b.iter().fold(5381u32, |h, c| h.wrapping_mul(33).wrapping_add(u32::from(*c))) as u64
+        }
+        fn djb2x(b: &[u8]) -> u64 {
+            b.iter().fold(5381u32, |h, c| h.wrapping_mul(33) ^ u32::from(*c)) as u64
+        }
+        fn sdbm(b: &[u8]) -> u64 {
+            b.iter().fold(0u32, |h, c| u32::from(*c).wrapping_add(h << 6).wrapping_add(h << 16).wrapping_sub(h)) as u64
+        }
+        fn java31(b: &[u8]) -> u64 {
+            b.iter().fold(0u32, |h, c| h.wrapping_mul(31).wrapping_add(u32::from(*c))) as u64
+        }
+        fn crc32(b: &[u8]) -> u64 {
+            let mut crc = 0xffff_ffffu32;
+            for c in b {
+                crc ^= u32::from(*c);
+                for _ in 0..8 {
+                    crc = if crc & 1 == 1 { (crc >> 1) ^ 0xedb8_8320 } else { crc >> 1 };
+                }
+            }
+            (!crc) as u64
+        }
+        fn adler(b: &[u8]) -> u64 {
+            let (mut a, mut s) = (1u32, 0u32);
+            for c in b {
+                a = (a + u32::from(*c)) % 65521;
+                s = (s + a) % 65521;
+            }
+            ((s << 16) | a) as u64
+        }
+        fn oaat(b: &[u8]) -> u64 {
+            let mut h = 0u32;
+            for c in b {
+                h = h.wrapping_add(u32::from(*c));
+                h = h.wrapping_add(h << 10);
+                h ^= h >> 6;
+            }
+            h = h.wrapping_add(h << 3);
+            h ^= h >> 11;
+            h = h.wrapping_add(h << 15);
+            h as u64
+        }
+        fn murmur3(b: &[u8]) -> u64 {
+            let mut h = 0u32;
+            let mut chunks = b.chunks_exact(4);
+            for ch in &mut chunks {
+                let mut k = u32::from_le_bytes([ch[0], ch[1], ch[2], ch[3]]);
+                k = k.wrapping_mul(0xcc9e_2d51).rotate_left(15).wrapping_mul(0x1b87_3593);
+                h = (h ^ k).rotate_left(13).wrapping_mul(5).wrapping_add(0xe654_6b64);
+            }
+            let r = chunks.remainder();
+            let mut k = 0u32;
+            for (i, c) in r.iter().enumerate() {
+                k |= u32::from(*c) << (8 * i);
+            }
+            if !r.is_empty() {
+                k = k.wrapping_mul(0xcc9e_2d51).rotate_left(15).wrapping_mul(0x1b87_3593);
+                h ^= k;
+            }
+            h ^= b.len() as u32;
+            h ^= h >> 16;
+            h = h.wrapping_mul(0x85eb_ca6b);
+            h ^= h >> 13;
+            h = h.wrapping_mul(0xc2b2_ae35);
+            h ^= h >> 16;
+            h as u64
+        }
+        fn sip_str(b: &[u8]) -> u64 {
+            use std::hash::{Hash, Hasher};
+            let mut h = std::collections::hash_map::DefaultHasher::new();
+            std::str::from_utf8(b).unwrap().hash(&mut h);
+            h.finish() & 0xffff_ffff
+        }
+        fn sip_bytes(b: &[u8]) -> u64 {
+            use std::hash::Hasher;
+            let mut h = std::collections::hash_map::DefaultHasher::new();
+            h.write(b);
+            h.finish() & 0xffff_ffff
+        }
+        fn sum(b: &[u8]) -> u64 {
+            b.iter().map(|c| u64::from(*c)).sum()
+        }
+        fn xor(b: &[u8]) -> u64 {
+            b.iter().fold(0u64, |h, c| h ^ u64::from(*c))
+        }
+        let fns: [fn(&[u8]) -> u64; 16] = [fnv1a, fnv1, fnv1a64lo, fnv1a64fold, djb2, djb2x, sdbm, java31, crc32, adler, oaat, murmur3, sip_str, sip_bytes, sum, xor];
+        let words: Vec<String> = (0..400_000u64)
+            .map(|i| {
+                let mut n = i.wrapping_mul(7919) % 11_881_376;
+                let mut w = String::new();
+                for _ in 0..5 {
+                    w.push((b'a' + (n % 26) as u8) as char);
+                    n /= 26;
+                }
+                w
+            })
+            .collect();
+        let mut out: Vec<(String, String)> = Vec::new();
+        for f in fns.iter() {
+            for mask in [0xffff_ffffu64, 0xffff] {
+                let mut seen: std::collections::HashMap<u64, usize> = std::collections::HashMap::new();
+                let mut found = 0;
+                for (i, w) in words.iter().enumerate() {
+                    let h = f(w.as_bytes()) & mask;
+                    if let Some(j) = seen.get(&h) {
+                        if words[*j] != *w {
+                            out.push((words[*j].clone(), w.clone()));
+                            found += 1;
+                            if found == 2 {
+                                break;
+                            }
+                        }
+                    } else {
+                        seen.insert(h, i);
+                    }
+                }
+            }
+        }
+        out.push(("Aa".into(), "BB".into()));
+        out.sort();
+        out.dedup();
+        out
+    })
+}
+
 pub fn gen_text(rng: &mut Rng, sz: Sizes) -> String {
     let len = pick_len(rng, sz);
     if UNIFORM_LEN.with(|u| u.get()).is_none() && !dictionary().is_empty() && rng.chance(1, 14) {
@@ -624,7 +770,8 @@ fn kind_char(id: u8) -> char {
     }
 }
 
-/// `mode`: 0 = random subset, 1 = all present, 2 = none, 3 = exactly one (index `one`), 4 = all but one
+/// `mode`: 0 = random subset, 1 = all present, 2 = none, 3 = exactly one (index `one`), 4 = all but one,
+/// 5 = exactly the two with indices `one / n` and `one % n` and no user property
 pub fn gen_props(rng: &mut Rng, ids: &[u8], sz: Sizes, mode: u8, one: usize) -> PMap {
     let mut m = PMap::default();
     for (i, id) in ids.iter().enumerate() {
@@ -633,6 +780,7 @@ pub fn gen_props(rng: &mut Rng, ids: &[u8], sz: Sizes, mode: u8, one: usize) -> 
             1 => true,
             2 => false,
             3 => i == one % ids.len().max(1),
+            5 => i == (one / ids.len().max(1)) % ids.len().max(1) || i == one % ids.len().max(1),
             _ => i != one % ids.len().max(1),
         };
         if !present {
@@ -658,7 +806,7 @@ pub fn gen_props(rng: &mut Rng, ids: &[u8], sz: Sizes, mode: u8, one: usize) -> 
         m.known.insert(*id, v);
     }
     let nu = match mode {
-        2 => 0,
+        2 | 5 => 0,
         _ => {
             if rng.chance(1, 2) {
                 0
@@ -989,6 +1137,27 @@ pub fn sweep_v3(thorough: bool) -> Vec<v3::Packet> {
             out.push(Packet::Unsubscribe(Unsubscribe { pid: Pid::try_from(7).unwrap(), topics: (0..n).map(|_| TopicFilter::try_from("same/+".to_string()).unwrap()).collect() }));
         }
     }
+    // COLLISION pairs (see `collisions`) next to each other wherever two texts meet
+    for (a, b) in collisions() {
+        let f = |s: &String| TopicFilter::try_from(s.clone()).unwrap();
+        out.push(Packet::Subscribe(Subscribe { pid: Pid::try_from(6).unwrap(), topics: vec![(f(a), QoS::Level0), (f(b), QoS::Level1), (f(a), QoS::Level2)] }));
+        out.push(Packet::Unsubscribe(Unsubscribe { pid: Pid::try_from(7).unwrap(), topics: vec![f(a), f(b)] }));
+        out.push(Packet::Connect(Connect {
+            protocol: Protocol::V311,
+            clean_session: true,
+            keep_alive: 9,
+            client_id: Arc::new(a.clone()),
+            last_will: Some(LastWill { qos: QoS::Level0, retain: false, topic_name: TopicName::try_from(b.clone()).unwrap(), message: Bytes::from(a.clone().into_bytes()) }),
+            username: Some(Arc::new(b.clone())),
+            password: Some(Bytes::from(a.clone().into_bytes())),
+        }));
+    }
+    // payload lengths at the thresholds the code itself mentions (beyond the fully swept range)
+    for n in numeric_literals().iter().cloned().filter(|n| *n > 8300 && *n <= 70_000).take(if thorough { 120 } else { 30 }) {
+        for pl in [n - 1, n, n + 1] {
+            out.push(Packet::Publish(Publish { dup: false, retain: false, qos_pid: QosPid::Level0, topic_name: name(1), payload: Bytes::from(vec![0x5a; pl]) }));
+        }
+    }
     // UNIFORM lengths: every text and binary field of a packet at the same length L at once (all fields
     // at their 3.1 maxima, all at 127, all at 256, …), every packet type
     let mut rng = Rng::new(0x5eed_0003);
@@ -1143,6 +1312,129 @@ pub fn sweep_v5(thorough: bool) -> Vec<v5::Packet> {
         if n > 0 {
             out.push(Packet::Subscribe(Subscribe { pid: Pid::try_from(6).unwrap(), properties: Default::default(), topics: (0..n).map(|i| (TopicFilter::try_from(format!("a/{}", i % 7)).unwrap(), SubscriptionOptions::new(QoS::Level2))).collect() }));
             out.push(Packet::Unsubscribe(Unsubscribe { pid: Pid::try_from(7).unwrap(), properties: Default::default(), topics: (0..n).map(|_| TopicFilter::try_from("same/+".to_string()).unwrap()).collect() }));
+        }
+    }
+    // COLLISION pairs (see `collisions`) next to each other wherever two texts meet
+    for (a, b) in collisions() {
+        let f = |s: &String| TopicFilter::try_from(s.clone()).unwrap();
+        let (aa, ab) = (Arc::new(a.clone()), Arc::new(b.clone()));
+        let x = Arc::new("x".to_string());
+        let keys = vec![UserProperty { name: aa.clone(), value: x.clone() }, UserProperty { name: ab.clone(), value: x.clone() }, UserProperty { name: aa.clone(), value: ab.clone() }];
+        let values = vec![UserProperty { name: x.clone(), value: aa.clone() }, UserProperty { name: x.clone(), value: ab.clone() }];
+        for ups in [keys, values] {
+            out.push(Packet::Puback(Puback { pid: Pid::try_from(2).unwrap(), reason_code: PubackReasonCode::Success, properties: PubackProperties { reason_string: Some(ab.clone()), user_properties: ups.clone() } }));
+            out.push(Packet::Publish(Publish { dup: false, retain: false, qos_pid: QosPid::Level0, topic_name: TopicName::try_from(a.clone()).unwrap(), payload: Bytes::new(), properties: PublishProperties { user_properties: ups.clone(), response_topic: Some(TopicName::try_from(b.clone()).unwrap()), content_type: Some(ab.clone()), ..Default::default() } }));
+            out.push(Packet::Unsubscribe(Unsubscribe { pid: Pid::try_from(4).unwrap(), properties: UnsubscribeProperties { user_properties: ups.clone() }, topics: vec![f(a), f(b)] }));
+            out.push(Packet::Subscribe(Subscribe { pid: Pid::try_from(4).unwrap(), properties: SubscribeProperties { subscription_id: None, user_properties: ups.clone() }, topics: vec![(f(a), SubscriptionOptions::new(QoS::Level0)), (f(b), SubscriptionOptions::new(QoS::Level1))] }));
+            out.push(Packet::Connect(Connect {
+                protocol: Protocol::V500,
+                clean_start: true,
+                keep_alive: 0,
+                properties: ConnectProperties { user_properties: ups.clone(), auth_method: Some(aa.clone()), ..Default::default() },
+                client_id: aa.clone(),
+                last_will: Some(LastWill { qos: QoS::Level0, retain: false, topic_name: TopicName::try_from(b.clone()).unwrap(), payload: Bytes::from(a.clone().into_bytes()), properties: WillProperties { user_properties: ups, content_type: Some(aa.clone()), response_topic: Some(TopicName::try_from(a.clone()).unwrap()), ..Default::default() } }),
+                username: Some(ab.clone()),
+                password: Some(Bytes::from(b.clone().into_bytes())),
+            }));
+        }
+    }
+    // SELF-DESCRIBING packets: a text field that repeats the rendering of another field of the same packet (the
+    // reason string equal to the Debug name of the reason code, in full and as the only property)
+    {
+        let pid = Pid::try_from(12).unwrap();
+        let rs = |d: String, users: bool| -> (Option<Arc<String>>, Vec<UserProperty>) {
+            let d = Arc::new(d);
+            (Some(d.clone()), if users { vec![UserProperty { name: d.clone(), value: d }] } else { vec![] })
+        };
+        for users in [false, true] {
+            for c in v5text::CONNECT_RC {
+                let (reason_string, user_properties) = rs(format!("{:?}", c), users);
+                out.push(Packet::Connack(Connack { session_present: false, reason_code: c, properties: ConnackProperties { reason_string, user_properties, ..Default::default() } }));
+            }
+            for c in v5text::DISCONNECT_RC {
+                let (reason_string, user_properties) = rs(format!("{:?}", c), users);
+                out.push(Packet::Disconnect(Disconnect { reason_code: c, properties: DisconnectProperties { reason_string, user_properties, ..Default::default() } }));
+            }
+            for c in v5text::AUTH_RC {
+                let (reason_string, user_properties) = rs(format!("{:?}", c), users);
+                out.push(Packet::Auth(Auth { reason_code: c, properties: AuthProperties { reason_string, user_properties, ..Default::default() } }));
+            }
+            for c in v5text::PUBACK_RC {
+                let (reason_string, user_properties) = rs(format!("{:?}", c), users);
+                out.push(Packet::Puback(Puback { pid, reason_code: c, properties: PubackProperties { reason_string, user_properties } }));
+            }
+            for c in v5text::PUBREC_RC {
+                let (reason_string, user_properties) = rs(format!("{:?}", c), users);
+                out.push(Packet::Pubrec(Pubrec { pid, reason_code: c, properties: PubrecProperties { reason_string, user_properties } }));
+            }
+            for c in v5text::PUBREL_RC {
+                let (reason_string, user_properties) = rs(format!("{:?}", c), users);
+                out.push(Packet::Pubrel(Pubrel { pid, reason_code: c, properties: PubrelProperties { reason_string, user_properties } }));
+            }
+            for c in v5text::PUBCOMP_RC {
+                let (reason_string, user_properties) = rs(format!("{:?}", c), users);
+                out.push(Packet::Pubcomp(Pubcomp { pid, reason_code: c, properties: PubcompProperties { reason_string, user_properties } }));
+            }
+            for c in v5text::SUBSCRIBE_RC {
+                let (reason_string, user_properties) = rs(format!("{:?}", c), users);
+                out.push(Packet::Suback(Suback { pid, properties: SubackProperties { reason_string, user_properties }, topics: vec![c] }));
+            }
+            for c in v5text::UNSUBSCRIBE_RC {
+                let (reason_string, user_properties) = rs(format!("{:?}", c), users);
+                out.push(Packet::Unsuback(Unsuback { pid, properties: UnsubackProperties { reason_string, user_properties }, topics: vec![c] }));
+            }
+        }
+    }
+    // every PAIR of properties present alone (mode 5), at every property-carrying position; PUBLISH with an
+    // empty and a non-empty topic (an empty topic + Topic Alias is the one legal use of the empty name)
+    {
+        let mut rng = Rng::new(0x5eed_0055);
+        let sz = Sizes { big: false };
+        let pid = Pid::try_from(13).unwrap();
+        let pairs = |n: usize| -> Vec<usize> { (0..n).flat_map(|i| (i + 1..n).map(move |j| i * n + j)).collect() };
+        for one in pairs(v5text::PUBLISH_IDS.len()) {
+            for topic in ["", "t"] {
+                let m = gen_props(&mut rng, &v5text::PUBLISH_IDS, sz, 5, one);
+                let payload = payload_for(&mut rng, &m, sz);
+                for qos_pid in [QosPid::Level0, QosPid::Level1(pid)] {
+                    out.push(Packet::Publish(Publish { dup: false, retain: false, qos_pid, topic_name: TopicName::try_from(topic.to_string()).unwrap(), payload: Bytes::from(payload.clone()), properties: v5text::mk_publish_props(&m) }));
+                }
+            }
+        }
+        for one in pairs(v5text::CONNECT_IDS.len()) {
+            let m = gen_props(&mut rng, &v5text::CONNECT_IDS, sz, 5, one);
+            out.push(Packet::Connect(Connect { protocol: Protocol::V500, clean_start: false, keep_alive: 3, properties: v5text::mk_connect_props(&m), client_id: Arc::new("c".into()), last_will: None, username: None, password: None }));
+        }
+        for one in pairs(v5text::WILL_IDS.len()) {
+            let m = gen_props(&mut rng, &v5text::WILL_IDS, sz, 5, one);
+            let payload = payload_for(&mut rng, &m, sz);
+            out.push(Packet::Connect(Connect {
+                protocol: Protocol::V500,
+                clean_start: false,
+                keep_alive: 3,
+                properties: Default::default(),
+                client_id: Arc::new("c".into()),
+                last_will: Some(LastWill { qos: QoS::Level1, retain: true, topic_name: name(1), payload: Bytes::from(payload), properties: v5text::mk_will_props(&m) }),
+                username: None,
+                password: None,
+            }));
+        }
+        for one in pairs(v5text::CONNACK_IDS.len()) {
+            let m = gen_props(&mut rng, &v5text::CONNACK_IDS, sz, 5, one);
+            out.push(Packet::Connack(Connack { session_present: true, reason_code: ConnectReasonCode::Success, properties: v5text::mk_connack_props(&m) }));
+        }
+        for one in pairs(v5text::DISCONNECT_IDS.len()) {
+            let m = gen_props(&mut rng, &v5text::DISCONNECT_IDS, sz, 5, one);
+            out.push(Packet::Disconnect(Disconnect { reason_code: DisconnectReasonCode::ServerMoved, properties: v5text::mk_disconnect_props(&m) }));
+        }
+        for one in pairs(v5text::AUTH_IDS.len()) {
+            let m = gen_props(&mut rng, &v5text::AUTH_IDS, sz, 5, one);
+            out.push(Packet::Auth(Auth { reason_code: AuthReasonCode::ContinueAuthentication, properties: v5text::mk_auth_props(&m) }));
+        }
+    }
+    for n in numeric_literals().iter().cloned().filter(|n| *n > 8300 && *n <= 70_000).take(if thorough { 120 } else { 30 }) {
+        for pl in [n - 1, n, n + 1] {
+            out.push(Packet::Publish(Publish { dup: false, retain: false, qos_pid: QosPid::Level0, topic_name: name(1), payload: Bytes::from(vec![0x5a; pl]), properties: Default::default() }));
         }
     }
     let mut rng = Rng::new(0x5eed_0005);
